@@ -84,6 +84,9 @@ func newNodeCase(c *Ctx, mode string, E uint64, nVal, local int, pend uint64) *n
 	if local >= 0 {
 		localS = fmt.Sprint(local)
 	}
+	if mode == "pool" {
+		nc.poolInit()
+	}
 	nc.dumpAfterInit = nc.dump("ok")
 	nc.emit(fmt.Sprintf("reset E=%d V=%d local=%s pend=%d interval=%d%s", E, nVal, localS, pend, nodeInterval, caseTag), nc.dumpAfterInit)
 	return nc
